@@ -35,7 +35,7 @@ from atomman.defect import (Stroh, IsotropicVolterraDislocation,          # noqa
 chk = Check('C12', 'exploration',
             'full product materials (8 anisotropic classes, cubic A=1+-{1e-1,1e-2,1e-3}, 2 isotropic) x Burgers '
             'vectors (screw, edge, 60-degree mixed, 2 generic with n-component; crystal-vector Burgers for the '
-            'Miller systems) x orientations (no transform, 5 explicit transforms incl. non-unit rows and the axes= '
+            'Miller systems) x orientations (no transform, 6 explicit transforms incl. non-unit rows through transform= and through the axes= '
             'alias, one VERIF_SEED-selected rotation, 10 Miller line/plane systems in a cubic, a hexagonal and an orthorhombic box '
             'incl. 4-index) x 8 (m,n) choices (6 Cartesian assignments as str/array/mixed + 2 generic pairs); '
             'one case = one solved dislocation evaluated on the complete grid r{0.7,1.9,5.3} x 12 theta x z{0,0.8} '
@@ -210,6 +210,7 @@ ORIENT = [('T', 'none', np.eye(3)),
           ('T', 'transform', np.array([[1.0, -1, 0], [1, 1, 1], [-1, -1, 2]])),
           ('T', 'transform', rot([1, 2, 3], 37.0)),
           ('T', 'axes', rot([-2, 1, 0.5], 123.0)),
+          ('T', 'axes', np.array([[1.0, 0, -1], [1, 1, 1], [1, -2, 1]])),      # the legacy keyword with non-unit rows
           ('T', 'transform', np.array([[1.0, 1, 0], [-1, 1, 0], [0, 0, 2]])),
           ('T', 'transform', rot(*SEED_ROT[SEED % 8]))]
 NT = len(ORIENT)
